@@ -607,6 +607,44 @@ def build_poll_harness(ck):
     return ck.link('h_signalpoll', h + ck.libmp_objects(flags=F))
 
 
+def build_pt_harness(ck):
+    h = ck.objects([os.path.join(VERIF, 'harness', 'h_signal_pt.cc')], flags=('-O1',), tag='c15pt')
+    return ck.link('h_signalpt', h + ck.libmp_objects(flags=('-O1',)))
+
+
+def nested_instruction_level(ck, drv, layout):
+    """Re-entrance on the real code at instruction granularity (ptrace single-stepping, harness/h_signal_pt.cc): SIGTERM is
+    injected after every instruction of HandleSigInt(SIGINT).  Returns (real outcomes per scenario, model outcomes per
+    scenario and gap, oracle verdicts)."""
+    exe = build_pt_harness(ck)
+    p = subprocess.run([exe, 'UO'], capture_output=True, text=True, timeout=300)
+    real = {'U': [], 'O': []}
+    for ln in p.stdout.split('\n'):
+        m = re.match(r'([UO]) N=(\d+) off=(-?\d+) (pair=\S+ callbacks=\S+ third=\S+)', ln)
+        if m and int(m.group(2)) >= 1:      # N=0: the injection coincides with the delivery of the outer signal itself
+            real[m.group(1)].append((int(m.group(2)), int(m.group(3)), m.group(4)))
+    if p.returncode != 0 or not real['U'] or not real['O']:
+        raise RuntimeError('h_signal_pt failed (ptrace not permitted?): rc=%s %s' % (p.returncode, (p.stdout + p.stderr)[-600:]))
+    q = subprocess.run([drv, layout], input=''.join('nestk bsd %s %d\n' % (sc, k) for sc in 'UO' for k in range(7)),
+                       capture_output=True, text=True)
+    ml = q.stdout.split('\n')
+    model = {'U': ml[0:7], 'O': ml[7:14]}
+    verdicts = []
+    for sc in 'UO':
+        for n, off, out in real[sc]:
+            pair = re.search(r'pair=(\S+)', out).group(1)
+            third = re.search(r'third=(\S+)', out).group(1)
+            if sc == 'U' and not (pair == '2' and third == 'exit1'):
+                kind = 'undercount' if pair == '1' else 'other'
+                verdicts.append(('nested-count:%s' % kind, 'SIGTERM delivered after %d instructions of HandleSigInt(SIGINT) (pc = HandleSigInt+%d): stop_ = %s after the two '
+                                 'interrupts, a third interrupt leaves the process %s' % (n, off, pair, third), 'U N=%d' % n))
+            if sc == 'O' and pair != 'exit1':
+                kind = 'overcount' if pair == '3' else 'undercount' if pair == '2' else 'other'
+                verdicts.append(('nested-count:%s' % kind, 'one interrupt recorded; SIGTERM delivered after %d instructions of HandleSigInt(SIGINT) (pc = HandleSigInt+%d): the third '
+                                 'interrupt does not terminate the process, stop_ = %s' % (n, off, pair), 'O N=%d' % n))
+    return real, model, verdicts
+
+
 def is_app(case):
     return app_token(case) is not None
 
@@ -855,7 +893,7 @@ def coverage_report(res, label):
     return '\n'.join(out), mt
 
 
-N_THEOREMS = 44
+N_THEOREMS = 46
 CURRENT_LAYOUT = 'fixed+dtor'     # = Layout.current in lean/MpVerif/C15/Model.lean (the order the main theorems are stated for)
 
 
@@ -1012,6 +1050,23 @@ def run(ck):
             oracle_bad.setdefault(sig, []).append((case, what, il))
         if origin == 'counterexample':
             cx_seen[case] = [s for s, _ in verdicts]
+    # re-entrance at instruction granularity on the real code, against the model's per-gap outcomes
+    try:
+        nreal, nmodel, nverd = nested_instruction_level(ck, drv, layout)
+        rs = {sc: sorted(set(o for _, _, o in nreal[sc])) for sc in 'UO'}
+        ms = {sc: sorted(set(nmodel[sc])) for sc in 'UO'}
+        ck.cov['nested_instruction_level'] = {
+            'instructions_tried': {sc: len(nreal[sc]) for sc in 'UO'},
+            'real_outcomes': rs, 'model_outcomes_by_gap': nmodel,
+            'windows_on_real_code': {sc: [(n, off, o) for n, off, o in nreal[sc] if o not in (nmodel[sc][0],)][:12] for sc in 'UO'},
+            'note': 'SIGTERM injected (ptrace) after every instruction of HandleSigInt(SIGINT) that lies in HandleSigInt itself; scenario U: stop_ = 0 before, O: one earlier interrupt'}
+        if rs != ms:
+            corr_bad.append(('nested-instruction-level', str(rs), str(ms), 'set of outcomes of a nested SIGTERM over all instruction boundaries of the real handler vs. over all gaps of the model'))
+        for sig, what, inp in nverd:
+            oracle_bad.setdefault(sig, []).append(('h_signal_pt ' + inp, what, inp))
+    except RuntimeError as e:
+        ck.cov['nested_instruction_level'] = {'skipped': str(e)[:300]}
+        ck.log('instruction-level re-entrance replay skipped: %s' % str(e)[:200])
     # which arms of the model functions did the compared stream exercise (counted on the model's own output)
     arms = {}
 
@@ -1177,6 +1232,18 @@ def replay(ck, path):
     cf, rf, df, names = detect_layout(exe)
     set_layout(bool(cf), bool(rf), bool(df))
     layout = layout_name(cf, rf, df)
+    if case.startswith('h_signal_pt'):
+        nreal, nmodel, nverd = nested_instruction_level(ck, drv, layout)
+        for sc in 'UO':
+            print('scenario %s, real code (instruction, pc offset, outcome) differing from the sequential outcome:' % sc)
+            for n, off, o in nreal[sc]:
+                if o != nmodel[sc][0]:
+                    print('   N=%d HandleSigInt+%d  %s' % (n, off, o))
+            print('scenario %s, model by gap k=0..6: %s' % (sc, nmodel[sc]))
+        want = rp.get('signature')
+        still = any(sg == want for sg, _, _ in nverd)
+        print('REPRODUCED' if still else 'not reproduced')
+        return 1 if still else 0
     il = run_impl(exe, [case], 1, build_app_harness(ck), build_poll_harness(ck) if is_poll(case) else None)[0]
     ml = run_model(drv, [case], layout)[0]
     if is_app(case):
